@@ -25,6 +25,18 @@ def run(ctx):
     n = 300 if q else 3000
     from .. import suite
     suite.run(ctx, ["space"])
+    # saturation lands exactly on the edge also for coordinates the integer specification cannot represent
+    rng = ctx.rng
+    progs = []
+    for _ in range(60 if q else 600):
+        ext = [rng.choice([7.3, 10.1, 5.0, 0.7 + rng.randint(1, 9), round(rng.uniform(1, 20), 3)]) for _ in range(3)]
+        prog = [["model", "m1", "plain", [0, 0, 0], False]]
+        for _ in range(8):
+            start = [min(round(rng.uniform(0, e), rng.choice([1, 2, 5])), e) for e in ext]
+            prog.append(["move_sat", ext, start, [rng.choice([-1, 0, 1]) for _ in range(3)]])
+        progs.append(prog)
+    _world.validate_programs(ctx, progs, "far out-of-range relative moves in continuous worlds with non-dyadic float extents and positions: "
+                                         "saturation must land exactly on the edge", tamper=False)
     for kinds, label in ((("space",), "continuous worlds"), (("grid",), "generic grid worlds"), (("line", "grid2d"), "line and 2-D grid worlds")):
         runs = _world.random_runs(ctx, n, kinds=kinds, mods="clean", length=60, weights=W, n_models=1)
         _world.validate_runs(ctx, runs, f"random add/move/move_to/remove histories, non-cubic extents incl. 0, wrap on/off, {label}")
